@@ -316,6 +316,9 @@ func selectSetForRecursion(ctx context.Context, scope *ReferenceScope, view *Vie
 	}
 
 	if rview.RecordLen() < 1 {
+		if set.Operator.Token == parser.UNION && set.All.IsEmpty() {
+			return view.Union(ctx, scope.Tx.Flags, rview, false)
+		}
 		return nil
 	}
 
